@@ -88,8 +88,12 @@ void h_SET_OF_oer_roundtrip(void) {
 #endif
 	setup();
 	int bad = fill(vals, count);
+#ifdef VF_FAIL
+	{ VF_SCALAR(long, fail_at); __CPROVER_assume(fail_at >= 0 && fail_at <= 4); vf_cb_fail_at = fail_at; }
+#endif
 	asn_enc_rval_t er = SET_OF_encode_oer(&L_td, 0, &l, vf_cb, 0);
 	VF_CANARY();
+	if(vf_cb_failed) { __CPROVER_assert(er.encoded == -1, "C07: a failing output callback makes the call fail"); return; }
 	if(bad) { __CPROVER_assert(er.encoded == -1, "C07: an element that cannot be encoded makes the call fail"); return; }
 	size_t n = 2 + 2 * (size_t)count;
 	__CPROVER_assert(er.encoded == (ssize_t)n && vf_cb_bytes == n, "C02/C07: size of the encoding equals the bytes delivered");
